@@ -531,6 +531,19 @@ func init() {
 						}
 					}
 				}
+				// Mod, Pow and the two Between operations are separate copies of the engine method: every form over every operand layout
+				for oi, op := range []string{"Mod", "Pow", "MinBetween", "MaxBetween"} {
+					for i, la := range opndLayouts {
+						dt := []string{"int64", "float64", "int16", "float32"}[(oi+i)%4]
+						if op == "Pow" {
+							dt = []string{"float64", "float32"}[i%2]
+						}
+						add(dt, op, "TS", []int{2, 3}, la, "C", "func")
+						add(dt, op, "ST", []int{2, 3}, la, "C", "func")
+						add(dt, op, "TT", []int{2, 3}, la, opndLayouts[(i+oi+1)%len(opndLayouts)], "func")
+						add(dt, op, "TT", []int{2, 3}, opndLayouts[(i+oi+2)%len(opndLayouts)], la, "func")
+					}
+				}
 				for _, sh := range [][]int{{3}, {1, 3}, {3, 1}, {2, 1, 2}} {
 					for i, op := range arithOps {
 						add([]string{"int", "float64", "uint8", "float32"}[i%4], op, "TT", sh, opndLayouts[i%5], opndLayouts[(i+2)%5], "func")
